@@ -83,10 +83,25 @@ def reqOfBody (auth : AuthReq) (body : Form.Bytes) : Option PubReq :=
 
 /-- What the hub reads from the body is what the publisher form-encoded: topics in order, data, id,
     type, the retry text, the private flag — for all UTF-8 strings. -/
-theorem posted_fields_are_read_back (topics : List Str) (retry data id type : Str) (priv : Bool) :
+theorem posted_fields_are_read_back (topics : List Str) (retry data id type : Str) (priv : Bool)
+    (hlen : (Form.bodyOf topics retry data id type priv).length ≤ Form.maxFormSize) :
     Form.fieldsOf (Form.bodyOf topics retry data id type priv) =
       some { formOk := true, topics := topics, retry := retry, priv := priv, data := data, id := id, type := type } :=
-  Form.fieldsOf_bodyOf topics retry data id type priv
+  Form.fieldsOf_bodyOf topics retry data id type priv hlen
+
+/-- **A body over net/http's form limit (10 MiB) is refused as a whole**: whatever credential comes with
+    it, nothing is published — in particular no update built from a prefix of the body (a `data` cut
+    short, an `id`, `type` or `private` field dropped because it came after the cut). -/
+theorem oversized_body_refused (cfg : HubCfg) (M : Str → Str → Bool) (tok : Str → Option Claims) (auth : AuthReq)
+    (body : Form.Bytes) (req : PubReq) (h : Form.maxFormSize < body.length)
+    (hreq : reqOfBody auth body = some req) : ∀ u, publish cfg M tok req ≠ .accepted u := by
+  intro u hacc
+  unfold reqOfBody at hreq
+  rw [Form.fieldsOf_too_large body h] at hreq
+  simp only [Option.map_some, Option.some.injEq] at hreq
+  subst hreq
+  have := ((C02.publish_ok_iff cfg M tok _).1 ⟨u, hacc⟩).2.1
+  simp at this
 
 theorem form_roundtrip (kvs : List (Form.Bytes × Form.Bytes)) : Form.parseQuery (Form.encodePairs kvs) = (kvs, false) :=
   Form.parseQuery_encodePairs kvs
@@ -112,8 +127,13 @@ theorem post_to_event (cfg : HubCfg) (M : Str → Str → Bool) (tok : Str → O
     Json.parseUpdate (Json.update debug u) = some (debug, u) ∧
     parseSSE ({ data := u.data, id := u.id, type := u.type, retry := u.retry } : Event).encode
       = [{ id := id, type := type, data := normaliseEOL data, retry := if retry = 0 then none else some retry }] := by
+  -- an accepted request was not over the form limit (`oversized_body_refused`), so the whole body was parsed
+  have hlen : (Form.bodyOf topics (Nat.toDigits 10 retry) data id type priv).length ≤ Form.maxFormSize := by
+    apply Nat.le_of_not_lt
+    intro hbig
+    exact oversized_body_refused cfg M tok auth _ req hbig hreq u hacc
   unfold reqOfBody at hreq
-  rw [Form.fieldsOf_bodyOf] at hreq
+  rw [Form.fieldsOf_bodyOf _ _ _ _ _ _ hlen] at hreq
   simp only [Option.map_some, Option.some.injEq] at hreq
   subst hreq
   obtain ⟨h1, h2, h3, h4, h5, h6⟩ := C02.publish_accepted_shape cfg M tok _ u hacc
@@ -149,4 +169,5 @@ end Mercure.C12
 #print axioms Mercure.C12.repo_json_fields
 #print axioms Mercure.C12.posted_fields_are_read_back
 #print axioms Mercure.C12.form_roundtrip
+#print axioms Mercure.C12.oversized_body_refused
 #print axioms Mercure.C12.post_to_event
